@@ -203,16 +203,16 @@ class Ctx:
             self._purity[config] = Purity(self.facts(config))
         return self._purity[config]
 
-    def paths(self, name, config=None, opaque=(), inline=True, expand=(), atomic=()):
+    def paths(self, name, config=None, opaque=(), inline=True, expand=(), atomic=(), expand_loops=False):
         """all paths of a body (cached); raises CannotAnalyse"""
         config = config or self.config
-        key = (name, config, tuple(sorted(opaque)), inline, tuple(sorted(expand)), tuple(sorted(atomic)))
+        key = (name, config, tuple(sorted(opaque)), inline, tuple(sorted(expand)), tuple(sorted(atomic)), expand_loops)
         if key not in self._paths:
             f = self.facts(config)
             b = f.body(name)
             if b is None:
                 raise sym.CannotAnalyse('no body %s' % name)
-            ex = sym.Explorer(f, b, self.purity(config), inline=inline, opaque=opaque, expand=expand, atomic=atomic)
+            ex = sym.Explorer(f, b, self.purity(config), inline=inline, opaque=opaque, expand=expand, atomic=atomic, expand_loops=expand_loops)
             self._paths[key] = (b, ex.explore())
             if not hasattr(self, '_seen_bodies'):
                 self._seen_bodies = {}
